@@ -330,6 +330,17 @@ def _worker(task):
         return s
 
 
+def _expand_worker(prefix):
+    """run one prefix (+defaults) and return its statistics and the prefixes of its child subtrees"""
+    st = Stats()
+    try:
+        ctx = _execute(tuple(prefix), st, want_sample=(len(prefix) <= 1))
+        return st, _children(ctx, len(prefix))
+    except HarnessError as e:
+        st.harness_errors.append("prefix=%r: %s" % (list(prefix), e))
+        return st, []
+
+
 class Result(object):
     def __init__(self, stats, mode, k, wall):
         self.stats = stats
@@ -349,31 +360,40 @@ def explore(harness, mode="full", k=None, jobs=None, params=None, repo_root="/re
               mode=mode, k=k)
     deadline = (time.time() + time_cap) if time_cap else None
     total = Stats()
-    # master: expand breadth-first until there are enough subtrees to share out
+    # expand the choice tree level by level (in the pool) until there are enough subtrees to share out
     target = split_target or jobs * 12
     frontier = [()]
     leaves_done = 0
-    while frontier and len(frontier) < target:
-        # expand the shallowest (first) prefix: run it once, replace by its children
-        p = frontier.pop(0)
-        ctx = _execute(p, total, want_sample=(leaves_done < 3))
-        leaves_done += 1
-        frontier.extend(_children(ctx, len(p)))
-        if leaves_done > 4000:
-            break
-    if frontier:
-        per_task_cap = None
-        if exec_cap is not None:
-            per_task_cap = max(1, (exec_cap - leaves_done) // max(1, len(frontier)))
-        tasks = [(p, deadline, per_task_cap) for p in frontier]
-        if jobs <= 1:
-            results = [_worker(t) for t in tasks]
-        else:
-            ctxm = multiprocessing.get_context("fork")
-            with ctxm.Pool(jobs) as pool:
+    pool = None
+    if jobs > 1:
+        pool = multiprocessing.get_context("fork").Pool(jobs)
+    try:
+        while frontier and len(frontier) < target and leaves_done < 4000:
+            if pool is not None and len(frontier) > 1:
+                results = pool.map(_expand_worker, frontier, chunksize=1)
+            else:
+                results = [_expand_worker(p) for p in frontier]
+            nxt = []
+            for st, children in results:
+                total.merge(st)
+                nxt.extend(children)
+                leaves_done += 1
+            frontier = nxt
+        if frontier:
+            per_task_cap = None
+            if exec_cap is not None:
+                per_task_cap = max(1, (exec_cap - leaves_done) // max(1, len(frontier)))
+            tasks = [(p, deadline, per_task_cap) for p in frontier]
+            if pool is None:
+                results = [_worker(t) for t in tasks]
+            else:
                 results = pool.map(_worker, tasks, chunksize=1)
-        for r in results:     # merged in prefix order: deterministic
-            total.merge(r)
+            for r in results:     # merged in prefix order: deterministic
+                total.merge(r)
+    finally:
+        if pool is not None:
+            pool.close()
+            pool.join()
     if total.harness_errors:
         raise HarnessError("; ".join(total.harness_errors[:3]))
     return total
